@@ -109,6 +109,7 @@ Proof.
   destruct (mapM (cgnodes _ (cs_groups s)) root) as [ls|x] eqn:Em; [|discriminate].
   destruct (mapM _ (concat ls)) as [nds|x] eqn:En; [|discriminate].
   destruct (validate (map cn_uuid nds)) as [u|] eqn:Ev; [discriminate|].
+  destruct (forallb node_groups_named nds); [|discriminate].
   intros H. injection H as <-. exists nds. cbn. split; [reflexivity|]. split; [exact Ev|].
   apply mapM_ok_Forall2 in Em, En. split.
   - intros nd Hnd. destruct (Forall2_in_r _ _ _ _ En Hnd) as (k & _ & Hk).
@@ -183,7 +184,8 @@ Proof.
   unfold compile_with. destruct (crun fresh rows) as [s|x]; [|discriminate]. unfold cfinish_with.
   destruct (cs_heads s); [|discriminate]. destruct (cs_stack s) as [|root [|? ?]]; try discriminate.
   destruct (mapM _ root) as [ls|x]; [|discriminate]. destruct (mapM _ (concat ls)) as [nds|x]; [|discriminate].
-  destruct (validate _); [discriminate|]. intros H. injection H as <-. cbn. intros nd e Hnd He.
+  destruct (validate _); [discriminate|]. destruct (forallb node_groups_named nds); [|discriminate].
+  intros H. injection H as <-. cbn. intros nd e Hnd He.
   apply in_map_iff in Hnd as (cn & <- & _). unfold render_node in He.
   destruct (cn_body cn) as [x|cls r|r]; cbn in He.
   - destruct He as [<-|[]]. apply render_dest_not_sentinel.
